@@ -724,9 +724,93 @@ class Executor(object):
         if op == "fcmp":
             pred, t, x, y = a
             X, Y = self.val(fr, t, x), self.val(fr, t, y)
-            # only bit-pattern (in)equality against the same value is decidable without FP semantics
-            raise Unsupported("floating-point comparison")
+            fr.env[ins.dest] = self.fcmp(pred, ir.resolve(t).bits, X, Y)
+            return None
+        if op == "fneg":
+            t, v = a
+            bits = ir.resolve(t).bits
+            fr.env[ins.dest] = self.val(fr, t, v) ^ z3.BitVecVal(1 << (bits - 1), bits)
+            return None
         raise Unsupported("instruction: %s" % ins.text[:100])
+
+    # ------------------------------------------------------------------ floating point
+    # float / double values are carried as their IEEE-754 bit patterns (BitVec 32/64); operations
+    # convert to z3's FP theory and back, so the solver decides them with IEEE semantics
+    # (round-to-nearest-even for arithmetic and int->fp, round-toward-zero for fp->int).
+    @staticmethod
+    def fsort(bits):
+        if bits == 32:
+            return z3.Float32()
+        if bits == 64:
+            return z3.Float64()
+        raise Unsupported("floating-point type of %d bits" % bits)
+
+    def to_fp(self, x, bits):
+        return z3.fpBVToFP(x, self.fsort(bits))
+
+    def from_fp(self, f):
+        return z3.fpToIEEEBV(f)
+
+    def fcmp(self, pred, bits, X, Y):
+        fx, fy = self.to_fp(X, bits), self.to_fp(Y, bits)
+        uno = z3.Or(z3.fpIsNaN(fx), z3.fpIsNaN(fy))
+        base = {"eq": z3.fpEQ(fx, fy), "gt": z3.fpGT(fx, fy), "ge": z3.fpGEQ(fx, fy), "lt": z3.fpLT(fx, fy),
+                "le": z3.fpLEQ(fx, fy), "ne": z3.Not(z3.fpEQ(fx, fy))}
+        if pred == "true":
+            return z3.BoolVal(True)
+        if pred == "false":
+            return z3.BoolVal(False)
+        if pred == "ord":
+            return z3.Not(uno)
+        if pred == "uno":
+            return uno
+        if pred[0] == "o" and pred[1:] in base:
+            return z3.And(z3.Not(uno), base[pred[1:]])
+        if pred[0] == "u" and pred[1:] in base:
+            return z3.Or(uno, base[pred[1:]])
+        raise Unsupported("fcmp %s" % pred)
+
+    def fbin(self, op, bits, x, y):
+        fx, fy = self.to_fp(x, bits), self.to_fp(y, bits)
+        rm = z3.RNE()
+        if op == "fadd":
+            r = z3.fpAdd(rm, fx, fy)
+        elif op == "fsub":
+            r = z3.fpSub(rm, fx, fy)
+        elif op == "fmul":
+            r = z3.fpMul(rm, fx, fy)
+        elif op == "fdiv":
+            r = z3.fpDiv(rm, fx, fy)
+        else:
+            raise Unsupported("floating-point arithmetic %s" % op)
+        # NaN payloads are not determined by IEEE-754; the result is a fresh value constrained through FP equality
+        out = self.fresh(op, bits)
+        fo = self.to_fp(out, bits)
+        self.e.assume(z3.If(z3.fpIsNaN(r), z3.fpIsNaN(fo), fo == r))
+        return out
+
+    def fcast(self, op, x, f, t):
+        if op in ("sitofp", "uitofp"):
+            if z3.is_bool(x):
+                x = bool_to_bv(x, 8)
+            mk = z3.fpSignedToFP if op == "sitofp" else z3.fpUnsignedToFP
+            return self.from_fp(mk(z3.RNE(), x, self.fsort(t.bits)))
+        if op in ("fptosi", "fptoui"):
+            fx = self.to_fp(x, f.bits)
+            mk = z3.fpToSBV if op == "fptosi" else z3.fpToUBV
+            if t.bits == 1:
+                return z3.Extract(0, 0, mk(z3.RTZ(), fx, z3.BitVecSort(8))) == 1
+            # out-of-range conversions are undefined in C; z3 leaves them unspecified, which is what we want
+            return mk(z3.RTZ(), fx, z3.BitVecSort(t.bits))
+        if op == "fpext":
+            return self.from_fp(z3.fpFPToFP(z3.RNE(), self.to_fp(x, f.bits), self.fsort(t.bits)))
+        if op == "fptrunc":
+            r = z3.fpFPToFP(z3.RNE(), self.to_fp(x, f.bits), self.fsort(t.bits))
+            out = self.fresh("fptrunc", t.bits)
+            fo = self.to_fp(out, t.bits)
+            self.e.assume(z3.If(z3.fpIsNaN(r), z3.fpIsNaN(fo), fo == r))
+            return out
+        raise Unsupported("cast %s" % op)
 
     def cast(self, fr, op, ft, v, tt):
         x = self.val(fr, ft, v)
@@ -750,21 +834,38 @@ class Executor(object):
                 return z3.If(x, z3.BitVecVal(-1, t.bits), z3.BitVecVal(0, t.bits))
             return z3.SignExt(t.bits - f.bits, x)
         if op == "ptrtoint":
-            if isinstance(x, Ptr) and x.obj is None:
-                o = bv(x.off)
+            if isinstance(x, Ptr):
+                # every object sits in its own 4 GiB window (id << 32): differences inside one object are
+                # exact, and no two objects overlap; the absolute values carry no other meaning
+                o = bv(x.off) if x.obj is None else z3.simplify(z3.BitVecVal(x.obj.id << 32, 64) + bv(x.off))
                 return o if t.bits == 64 else z3.Extract(t.bits - 1, 0, o)
-            raise Unsupported("ptrtoint of a non-null pointer")
+            raise Unsupported("ptrtoint of a function pointer")
         if op == "inttoptr":
-            if conc(x) == 0:
+            c = conc(z3.simplify(x) if not isinstance(x, int) else x)
+            if c == 0:
                 return NULL
-            raise Unsupported("inttoptr of a non-zero integer")
-        raise Unsupported("cast %s (floating point)" % op)
+            if c is not None:
+                oid, off = c >> 32, c & 0xFFFFFFFF
+                for o in self.objects:
+                    if o.id == oid:
+                        return Ptr(o, off)
+            if c is None:
+                # base + symbolic offset: recover the object from the constant part
+                xs = z3.simplify(x)
+                for o in self.objects:
+                    d = z3.simplify(xs - z3.BitVecVal(o.id << 32, 64))
+                    if self.e.check(z3.UGT(d, z3.BitVecVal(1 << 31, 64))) != "sat":
+                        return Ptr(o, d)
+            raise Unsupported("inttoptr of an integer that is not an object address")
+        return self.fcast(op, x, f, t)
 
     def binop(self, fr, op, t, a, b):
         x, y = self.val(fr, t, a), self.val(fr, t, b)
         rt = ir.resolve(t)
+        if rt.kind == "float":
+            return self.fbin(op, rt.bits, x, y)
         if rt.kind != "int":
-            raise Unsupported("floating-point arithmetic %s" % op)
+            raise Unsupported("arithmetic %s on %s" % (op, rt.text()))
         if rt.bits == 1:
             x, y = to_bool(x), to_bool(y)
             if op == "and":
